@@ -87,3 +87,6 @@ Qed.
 (* the dump of the model after every op of any history is the expected dump *)
 Theorem model_dump_expected : forall h : list (op N), model_dump h = spec_dump h.
 Proof. intros h. unfold model_dump, spec_dump. f_equal. apply (trace_from_run h []). Qed.
+
+Theorem model_dump_last_expected : forall h : list (op N), model_dump_last h = spec_dump_last h.
+Proof. intros h. unfold model_dump_last, spec_dump_last. rewrite observe_expected. reflexivity. Qed.
